@@ -9,6 +9,7 @@ import (
 	"fmt"
 	"github.com/6tail/lunar-go/calendar"
 	"github.com/6tail/lunar-go/vsync"
+	"math"
 	"os"
 	"os/exec"
 	"path/filepath"
@@ -183,12 +184,43 @@ func quickYears(seed int64, maxYear int) []int {
 			}
 		}
 	}
+	in[maxYear] = true // the last year of the stated range itself
 	ys := make([]int, 0, len(in))
 	for y := range in {
 		ys = append(ys, y)
 	}
 	sort.Ints(ys)
 	return ys
+}
+
+// tieYears: years in which a solar-term instant lies within 1.5 s of local midnight, i.e. where rounding to the second
+// decides which civil day the term falls on (found by scanning the library's own term tables; parent process only).
+func tieYears() []int {
+	var out []int
+	for y := 1; y <= 9998; y++ {
+		func() {
+			defer func() { recover() }()
+			for _, jd := range calendar.NewLunarYear(y).GetJieQiJulianDays() {
+				f := (jd + 0.5 - math.Floor(jd+0.5)) * 86400
+				if f < 1.5 || f > 86398.5 {
+					cy := calendar.NewSolarFromJulianDay(jd).GetYear()
+					out = append(out, cy-1, cy, cy+1)
+				}
+			}
+		}()
+	}
+	return out
+}
+
+// toRangesPairs merges adjacent single-year ranges.
+func toRangesPairs(rs [][2]int) [][2]int {
+	var ys []int
+	for _, r := range rs {
+		for y := r[0]; y <= r[1]; y++ {
+			ys = append(ys, y)
+		}
+	}
+	return toRanges(ys)
 }
 
 func toRanges(ys []int) [][2]int {
@@ -267,7 +299,7 @@ func yearShardsWith(tier string, seed int64, maxYear int, kind string, extra []i
 	for _, y := range quickYears(seed, maxYear) {
 		in[y] = true
 	}
-	for _, y := range extra {
+	for _, y := range append(extra, tieYears()...) {
 		if y >= 1 && y <= maxYear {
 			in[y] = true
 		}
@@ -419,9 +451,9 @@ func runParent(id, tier string, only *Shard) int {
 			cmd := exec.CommandContext(ctx, exe, "worker", id, string(js))
 			// the process time zone is part of the environment the harness owns: it rotates over the shards (UTC, the
 			// library's home zone with its 1986-1991 daylight-saving years, a zone with yearly clock changes, a zone
-			// east of the date line). Nothing the library answers may depend on it; reference models and the merged
+			// that once skipped a civil day by crossing the date line). Nothing the library answers may depend on it; reference models and the merged
 			// dependence tables would show a difference. (C10 reads the clock's year: kept in UTC.)
-			tz := []string{"UTC", "Asia/Shanghai", "America/New_York", "Pacific/Auckland"}[idx%4]
+			tz := []string{"UTC", "Asia/Shanghai", "America/New_York", "Pacific/Apia"}[idx%4]
 			if id == "C10" {
 				tz = "UTC"
 			}
